@@ -509,6 +509,7 @@ func main() {
 	if r.Replayed() {
 		return
 	}
+	runConsts(r) // constants extracted from the source vs the model's
 	g := &gen{r, rng}
 	n := 1500
 	if r.Thorough() {
